@@ -175,10 +175,11 @@ PLANS = {
                     "message, nothing left over, identical bytes.",
     ),
     "C19": dict(
-        sany=["DltCodec.tla", "mc/MCZStr.tla", "trace/TraceSlice.tla"],
+        sany=["DltCodec.tla", "mc/MCZStr.tla", "trace/TraceSlice.tla", "trace/TraceStats.tla"],
         steps=[
             mc("zstr", "MCZStr", "MCZStr_quick.cfg", "MCZStr_thorough.cfg", replay=("slice", "verdict")),
             rec("slice", "zstr", "TraceSlice", 2000, 400000, 2, 12),
+            rec("stats", "visit19", "TraceStats", 300, 8000, 1, 4),
         ],
         rule=SLICE_RULE,
         explanation="MC: all byte strings of length <= 4 (quick, 11 111) / 5 (thorough, 111 111) over {NUL, 'A', and the bytes of complete / incomplete 2-, 3-, 4-byte UTF-8 "
@@ -228,12 +229,13 @@ PLANS = {
                     "{0, tiny, 0.01, 1, 1.5, 1e10, +-inf, NaN, random bits} x offsets {0, +-1, +-200, i32/i64 min/max, random}.",
     ),
     "C14": dict(
-        sany=["DltCodes.tla", "mc/MCCodes.tla", "trace/TraceCodes.tla"],
+        sany=["DltCodes.tla", "mc/MCCodes.tla", "trace/TraceCodes.tla", "trace/TraceStats.tla"],
         steps=[
             mc("codes", "MCCodes", "MCCodes_quick.cfg", "MCCodes_thorough.cfg"),
             rec("codes", "bytes", "TraceCodes", 1, 1, 1, 1),
             rec("codes", "ti", "TraceCodes", 0, 3, 8, 12, shard_args=True),
             dict(kind="custom", fn=ti_sweep),
+            rec("stats", "visit14", "TraceStats", 300, 8000, 1, 4),
         ],
         rule="exhaustive: every HTYP byte, every MSIN byte, every type-info word over the defined bits 0..17 (2^18) is one event (thorough: plus 3 seeded settings of the reserved bits "
              "each); the reserved-bit sweep counts one evaluation per word; every input is distinct by construction",
@@ -326,11 +328,12 @@ PLANS = {
     ),
     # not a listed property: growth of the specification beyond the list (DESIGN section 10); run with ./check extras
     "_extras": dict(
-        sany=["DltMisc.tla", "NvDecode.tla", "mc/MCDecode.tla", "trace/TraceCodes.tla", "trace/TraceStats.tla", "trace/TraceDecode.tla"],
+        sany=["DltMisc.tla", "NvDecode.tla", "mc/MCDecode.tla", "trace/TraceCodes.tla", "trace/TraceStats.tla", "trace/TraceDecode.tla", "trace/TraceReader.tla"],
         steps=[
             rec("codes", "misc", "TraceCodes", 300, 5000, 1, 2),
             rec("stats", "pipeline", "TraceStats", 600, 20000, 2, 8),
             rec("fibex", "decode", "TraceDecode", 200, 4000, 2, 8),
+            rec("reader", "cont", "TraceReader", 400, 8000, 2, 8),
             mc("decode", "MCDecode", "MCDecode.cfg", "MCDecode.cfg", replay=("fibex", "decode")),
             dict(kind="custom", fn=tlaps_timestamps_always),
         ],
@@ -355,10 +358,10 @@ ALSO = {
     "C10": " Also: id fields that are not valid UTF-8, ids differing in case or trailing blanks, 66 000 distinct ids, a fragmenting source.",
     "C11": " Documents also vary: XML prolog (7 variants), BYTE-LENGTH values, self-closing empty elements, texts with entities / leading and trailing white space / blank-only text, ids >= 2^31, ids differing only in letter case, standard signal names re-declared as signals; consecutive loads go through the same slot paths.",
     "C12": " Also: XML prolog variants, texts with entities, consecutive loads through the same slot paths, a 5.7 MB valid document under an 8 s bound.",
-    "C14": " Also: every header-type byte under declared lengths around the announced headers (if a message is returned, its flags are those of the byte).",
+    "C14": " The statistics scan is covered as one more entry point: the flags of the header handed to a visitor are those of the header-type byte. Also: every header-type byte under declared lengths around the announced headers (if a message is returned, its flags are those of the byte).",
     "C16": " The chain also starts from messages laid out by hand (not by the crate's writer): string / raw arguments of 0..4000 bytes, float arguments by bit pattern (signalling / quiet NaNs, infinities, -0, subnormals).",
     "C17": " Thorough tier: the identities on the naturals are also proved by TLAPS (spec/proofs/TimestampArith.tla).",
-    "C19": " Also: a buffer ending inside an id field: incomplete with a hint no larger than the bytes missing in that field; id bytes incl. blank, tab, NBSP, invalid UTF-8.",
+    "C19": " The ids a statistics visitor is handed obey the rule too. Also: a buffer ending inside an id field: incomplete with a hint no larger than the bytes missing in that field; id bytes incl. blank, tab, NBSP, invalid UTF-8.",
 }
 for _k, _v in ALSO.items():
     PLANS[_k]["explanation"] += _v
